@@ -61,14 +61,6 @@ macro_rules! receiver_harness {
                     let suite = rfc::full_suite_id(KEM_ID, KDF_ID, AEAD_ID);
                     let sched = rfc::key_schedule::<LinHash>(MODE, ss.as_slice(), &info[..il], psk_s, pid_s, &suite, 16, 12);
                     assert_schedule!(ctx, sched);
-                    // Context.Export
-                    let xc: [u8; XC] = kani::any();
-                    let xl = any_len(XC);
-                    let mut got = [0u8; 3];
-                    let mut want = [0u8; 3];
-                    assert!(ctx.export(&xc[..xl], &mut got).is_ok());
-                    assert!(rfc::export::<LinHash>(sched.exporter_secret.as_slice(), &suite, &xc[..xl], &mut want));
-                    assert!(got == want);
                 }
                 (Err(e), None) => assert!(e == HpkeError::DecapError),
                 _ => assert!(false, "setup_receiver success/failure differs from RFC 9180"),
@@ -78,7 +70,7 @@ macro_rules! receiver_harness {
         }
     };
 }
-//@h name=c02_l2_receiver_base tier=quick mode=func timeout=1200 desc="setup_receiver in Base mode: key (as handed to the AEAD), base_nonce, exporter_secret, initial seq and a 3-byte export all equal RFC 9180 SetupBaseR / KeySchedule / Context.Export; DecapError iff Decap fails" bounds="all skR, enc (2^32); info 0..=2 B, exporter context 0..=2 B symbolic; model suite DHKEM(XorDh,LinKdf)/LinKdf/SpyAead16 (Nk=16,Nn=12,Nh=8); unwind 20"
+//@h name=c02_l2_receiver_base tier=quick mode=func timeout=1200 desc="setup_receiver in Base mode: key (as handed to the AEAD), base_nonce, exporter_secret and initial seq all equal RFC 9180 SetupBaseR / KeySchedule; DecapError iff Decap fails" bounds="all skR, enc (2^32); info 0..=2 B symbolic; model suite DHKEM(XorDh,LinKdf)/LinKdf/SpyAead16 (Nk=16,Nn=12,Nh=8); unwind 20"
 receiver_harness!(c02_l2_receiver_base, 0);
 //@h name=c02_l2_receiver_psk tier=quick mode=func timeout=1200 desc="same for Psk mode (mode byte 1, psk -> secret extract, psk_id -> psk_id_hash)" bounds="as Base plus psk, psk_id 1..=2 B each symbolic"
 receiver_harness!(c02_l2_receiver_psk, 1);
@@ -129,13 +121,6 @@ macro_rules! sender_harness {
                     let suite = rfc::full_suite_id(KEM_ID, KDF_ID, AEAD_ID);
                     let sched = rfc::key_schedule::<LinHash>(MODE, ss.as_slice(), &info[..il], psk_s, pid_s, &suite, 16, 12);
                     assert_schedule!(ctx, sched);
-                    let xc: [u8; XC] = kani::any();
-                    let xl = any_len(XC);
-                    let mut got = [0u8; 3];
-                    let mut want = [0u8; 3];
-                    assert!(ctx.export(&xc[..xl], &mut got).is_ok());
-                    assert!(rfc::export::<LinHash>(sched.exporter_secret.as_slice(), &suite, &xc[..xl], &mut want));
-                    assert!(got == want);
                 }
                 (Err(e), None) => assert!(e == HpkeError::EncapError),
                 _ => assert!(false, "setup_sender success/failure differs from RFC 9180"),
@@ -144,7 +129,7 @@ macro_rules! sender_harness {
         }
     };
 }
-//@h name=c02_l2_sender_base tier=quick mode=func timeout=1200 desc="setup_sender in Base mode with a scripted RNG: enc, key, base_nonce, exporter_secret, export all equal RFC 9180 SetupBaseS with skE = DeriveKeyPair(the Nsk bytes drawn); exactly Nsk bytes drawn; EncapError iff Encap fails" bounds="all RNG outputs, pkR; info 0..=2 B, exporter context 0..=2 B; model suite; unwind 20"
+//@h name=c02_l2_sender_base tier=quick mode=func timeout=1200 desc="setup_sender in Base mode with a scripted RNG: enc, key, base_nonce, exporter_secret all equal RFC 9180 SetupBaseS with skE = DeriveKeyPair(the Nsk bytes drawn); exactly Nsk bytes drawn; EncapError iff Encap fails" bounds="all RNG outputs, pkR; info 0..=2 B; model suite; unwind 20"
 sender_harness!(c02_l2_sender_base, 0);
 //@h name=c02_l2_sender_psk tier=quick mode=func timeout=1200 desc="same for Psk mode" bounds="as Base plus psk, psk_id 1..=2 B"
 sender_harness!(c02_l2_sender_psk, 1);
